@@ -49,6 +49,7 @@ pub fn execute(script: &Script, keep_trace: bool) -> Outcome {
             8 => deque_run::run_deque::<8>(script, keep_trace),
             11 => deque_run::run_deque::<11>(script, keep_trace),
             40 => deque_run::run_deque::<40>(script, keep_trace),
+            160 => deque_run::run_deque::<160>(script, keep_trace),
             n => harness_fail(format!("capacity {n} is not compiled for the deque scenario")),
         },
         Scenario::Io => io_scn::run(script, keep_trace),
@@ -244,7 +245,7 @@ pub fn generate(prop: &str, seed: u64, run: u64) -> Option<Script> {
         "C19" => Some(zst_scn::gen_zst(seed, run)),
         "C01io" | "C04io" | "C06io" | "C09io" | "C11io" | "C13io" | "C17io" | "C18io" | "C20io" => Some(io_scn::gen_io(seed, prop, run)),
         "C10zst" => Some(zst_scn::gen_zst_for(seed, run, true)),
-        "C01zst" | "C03zst" | "C09zst" | "C11zst" | "C12zst" | "C13zst" | "C17zst" | "C18zst" => Some(zst_scn::gen_zst(seed, run)),
+        "C01zst" | "C03zst" | "C02zst" | "C09zst" | "C11zst" | "C12zst" | "C13zst" | "C17zst" | "C18zst" => Some(zst_scn::gen_zst(seed, run)),
         _ => gen::profile(prop).map(|p| gen::gen_deque(seed, &p, run)),
     }
 }
